@@ -15,3 +15,15 @@ Inductive Chain : list (cmd * memo) -> sess -> Prop :=
     Chain ((c, mm) :: rest) s.
 
 Definition hist (s : sess) : Prop := Core (base s) /\ Chain (cmds s) s.
+
+(* the commands that CommandStack.do's slice cuts off when c is pushed (oldest first) *)
+Definition dropped (s : sess) (c : cmd) : list cmd :=
+  rev (skipn (Z.to_nat stack_keep) (c :: map fst (cmds s))).
+
+(* all commands cut off so far during a history (ghost: computed next to the run) *)
+Fixpoint forgotten (s : sess) (ops : list sop) (acc : list cmd) : list cmd :=
+  match ops with
+  | [] => acc
+  | o :: r => forgotten (sstep s o) r (match o with Do c => acc ++ dropped s c | _ => acc end)
+  end.
+
